@@ -54,7 +54,10 @@ func (c *Client) handshake(ctx context.Context) error {
 			return errors.Wrap(err, "flush")
 		}
 
-		code, err := c.packet(ctx)
+		// Server hello can take longer than single packet read timeout, e.g.
+		// when idle cloud instance is waking up, so it is awaited until the
+		// handshake timeout, which is the deadline of ctx.
+		code, err := c.packetTimeout(ctx, NoTimeout)
 		if err != nil {
 			return errors.Wrap(err, "packet")
 		}
